@@ -133,7 +133,7 @@ def parse_results(out_json, harnesses, logf):
             res[h]["props"] = e.get("property_details", {})
     return res, None
 
-def classify(rec, required=()):
+def classify(rec, required=(), unwind_tag=None):
     """Split a harness record into violations / inconclusive reasons / covers."""
     viol, incon, covers_sat, covers_unsat = [], [], 0, 0
     st = rec["status"]
@@ -160,7 +160,12 @@ def classify(rec, required=()):
                 incon.append(f"cover '{desc}' undetermined")
             continue
         if s == "FAILURE" or s == "FAILED":
-            if "unwinding assertion" in desc:
+            if "unwinding assertion" in desc and unwind_tag:
+                # a loop that the code itself bounds (batch size) ran past that bound: non-termination
+                loc = c.get("location") or {}
+                viol.append({"tags": [unwind_tag], "tag": unwind_tag, "description": f"{unwind_tag}: loop exceeds its own bound (does not terminate): {desc}",
+                             "function": c.get("function"), "file": loc.get("file"), "line": loc.get("line"), "category": cat})
+            elif "unwinding assertion" in desc:
                 incon.append(f"unwinding bound too small: {desc} in {c.get('function')}")
             elif "VERIF-BOUND" in desc:
                 incon.append(f"model bound hit: {desc}")
@@ -243,7 +248,7 @@ def concrete_playback(src, target, harness, timeout_s, mem_gb, logf, want=None):
         tests = pref or tests
     return tests[0] if tests else None
 
-def native_playback(src, harness, test_src, real_map, logf):
+def native_playback(src, harness, test_src, real_map, logf, hang_is_repro=False):
     """Insert the generated #[test] next to the harness and run it natively (cargo kani playback)."""
     hfile = families.harness_file(VERIF, harness)
     # work on a private copy of the harness file so that /verif stays untouched
@@ -270,8 +275,18 @@ def native_playback(src, harness, test_src, real_map, logf):
     if real_map:
         e["RUSTFLAGS"] = "--cfg verif_real_map"
     cmd = ["cargo", "kani", "playback", "-Z", "concrete-playback", "--", tname]
+    hung = False
     with open(logf, "w") as lf:
-        r = subprocess.run(cmd, cwd=src, env=e, stdout=lf, stderr=subprocess.STDOUT, timeout=1800)
+        pp = subprocess.Popen(cmd, cwd=src, env=e, stdout=lf, stderr=subprocess.STDOUT, preexec_fn=os.setsid)
+        try:
+            pp.wait(timeout=300 if hang_is_repro else 1800)
+        except subprocess.TimeoutExpired:
+            hung = True
+        finally:
+            try:
+                os.killpg(pp.pid, 9)
+            except Exception:
+                pass
     txt = open(logf).read()
     # restore
     for root, _, files in os.walk(os.path.join(src, "src")):
@@ -280,6 +295,8 @@ def native_playback(src, harness, test_src, real_map, logf):
             s = open(p).read()
             if f'#[path = "{priv}"]' in s:
                 open(p, "w").write(s.replace(f'#[path = "{priv}"]', f'#[path = "{hfile}"]'))
+    if hung and hang_is_repro and "Running" in txt:
+        return True, "native replay of the harness did not terminate within 300 s (the built test binary was running)"
     if re.search(r"test result: FAILED|panicked at", txt):
         mm = re.search(r"panicked at [^\n]*\n([^\n]*)", txt)
         return True, (mm.group(0) if mm else "test failed")
@@ -374,7 +391,7 @@ def run(prop, a, seed, scratch, t_start):
     nontrivial = 0
     for h in names:
         r = recs[h]
-        v, inc, cs, cu = classify(r, byname[h].required)
+        v, inc, cs, cu = classify(r, byname[h].required, byname[h].unwind_tag)
         stt = r["stats"] or {}
         solver_s += stt.get("runtime_solver_s", 0) or 0
         symex_s += stt.get("runtime_symex_s", 0) or 0
@@ -458,7 +475,7 @@ def replay_violation(prop, h, vs, src, target, scratch, hobj):
     info = {"property": prop, "harness": h, "failed_checks": vs, "how_to_replay": f"./check {prop} --replay {path}"}
     try:
         test_src = concrete_playback(src, target, h, hobj.timeout * 4, 48, os.path.join(scratch, f"cp_{short}.log"),
-                                     want=[y["description"][:60] for y in vs])
+                                     want=[("unwinding assertion" if "does not terminate" in y["description"] else y["description"][:60]) for y in vs])
     except Exception as e:
         test_src = None
         info["playback_error"] = str(e)
@@ -466,7 +483,7 @@ def replay_violation(prop, h, vs, src, target, scratch, hobj):
         json.dump(info, open(path, "w"), indent=1)
         return False, path, "Kani produced no concrete assignment"
     info["kani_concrete_playback_test"] = test_src
-    ok, why = native_playback(src, h, test_src, False, os.path.join(scratch, f"pb_{short}.log"))
+    ok, why = native_playback(src, h, test_src, False, os.path.join(scratch, f"pb_{short}.log"), hang_is_repro=bool(hobj.unwind_tag))
     info["native_model_containers"] = {"reproduced": ok, "detail": why}
     ok2 = None
     if ok and hobj.real_map_replay:
